@@ -281,6 +281,7 @@ def run(run: common.Run):
     if run.only is None:
         stale_sidecar_leg(run, tmp, pair)
         symlink_source_leg(run, tmp, pair)
+        positional_flags_leg(run, tmp, pair)
 
 
 def sig_px(path):
@@ -426,6 +427,46 @@ def symlink_source_leg(run, tmp, pair):
     if res4.exit_code != 0 or listing(rel) != ['sub'] or len([n for n in listing(rel / 'sub') if n.startswith('img_FUSE_')]) != 1:
         run.fail(dict(i=680_003, op='relative source path'), f'exit {res4.exit_code}; {listing(rel)} / {listing(rel / "sub")}',
                  signature=dict(kind='outputs-elsewhere', op='relative'))
+
+
+def positional_flags_leg(run, tmp, pair):
+    """
+    The flags of `process()` given positionally, in the documented order (corr_filename, model, kernel_shape, param_filename,
+    build_ovw, overwrite): `..., param, True)` asks for overviews, NOT for overwriting - existing outputs are refused and left
+    alone; `..., param, False, True)` overwrites.
+    """
+    from homonim import RasterFuse
+    from homonim.enums import Model
+    d = tmp / 'positional'
+    d.mkdir()
+    corr, par = d / 'corr.tif', d / 'corr_PARAM.tif'
+    with warnings.catch_warnings():
+        warnings.simplefilter('ignore')
+        with RasterFuse(pair.src_path, pair.ref_path) as rf:
+            rf.process(corr, Model.gain, (1, 1), par, False)
+            before = file_state(d)
+            for k, (args, want) in enumerate((((corr, Model.gain, (3, 3), par, True), 'exists'), ((str(corr), Model.gain, (3, 3), str(par), False, False), 'exists'),
+                                              ((corr, Model.gain, (3, 3), par, False, True), 'ok'))):
+                case = dict(i=690_000 + k, op='process() with positional flags', flags=[repr(a) for a in args[4:]], expect=want)
+                try:
+                    rf.process(*args)
+                    got = 'ok'
+                except FileExistsError:
+                    got = 'exists'
+                except Exception as ex:
+                    got = f'raised {type(ex).__name__}'
+                run.evaluations += 1
+                run.hist[f'positional flags: {got}'] += 1
+                run.nontrivial.add(('positional', k))
+                after = file_state(d)
+                if got != want:
+                    run.fail(case, f'process(corr, model, kernel, param, {", ".join(repr(a) for a in args[4:])}) {got}; the documented order '
+                             f'(build_ovw, overwrite) demands: {want}', signature=dict(kind='clobbered' if got == 'ok' else 'other-error', op='positional'))
+                elif want == 'exists' and after != before:
+                    run.fail(case, 'the refused call changed the existing outputs', signature=dict(kind='clobber-on-refusal', op='positional'))
+                elif want == 'ok' and any(after[n][0] == before[n][0] for n in ('corr.tif', 'corr_PARAM.tif')):
+                    run.fail(case, 'the call with overwrite=True (sixth positional argument) did not replace the outputs',
+                             signature=dict(kind='not-replaced', op='positional'))
 
 
 def refused_calls_leave_nothing(run, tmp, pair):
